@@ -876,8 +876,8 @@ pub fn pb_btree_map_w_long<const WHICH: u8>() {
         n = 160 - w.len();
     }
     chk!(WHICH == C05, n == el, "C05: encoded_len equals bytes written (map entry longer than 127 bytes)");
-    // key(1) + len(2: 2 + 2 + 130 = 134 -> 0x86 0x01) + [08 k] + [12 82 01 <130 bytes>]
-    let good = n == 1 + 2 + 2 + 3 + 130 && arr[0] == 0x22 && arr[1] == 0x86 && arr[2] == 0x01 && arr[3] == 0x08 && arr[4] == k as u8
+    // key(1) + len(2: 2 + 3 + 130 = 135 -> 0x87 0x01) + [08 k] + [12 82 01 <130 bytes>]
+    let good = n == 1 + 2 + 2 + 3 + 130 && arr[0] == 0x22 && arr[1] == 0x87 && arr[2] == 0x01 && arr[3] == 0x08 && arr[4] == k as u8
         && arr[5] == 0x12 && arr[6] == 0x82 && arr[7] == 0x01 && arr[8] == h[0] && arr[137] == h[1];
     chk!(WHICH == C06, good, "C06: long map entry equals the reference encoding");
     kani::cover!(true, "reached end");
